@@ -41,6 +41,22 @@ type pathEnd struct {
 
 type summaryImpure struct{ msg string }
 
+// pcHash is a 128-bit rolling hash of a literal sequence.
+type pcHash struct{ a, b uint64 }
+
+func (h pcHash) add(l Lit) pcHash {
+	x := uint64(int64(l))
+	h.a = (h.a ^ x) * 1099511628211
+	h.a ^= h.a >> 29
+	h.b = (h.b+x)*0x9E3779B97F4A7C15 + 0x7F4A7C15
+	h.b ^= h.b >> 31
+	return h
+}
+
+func (h pcHash) key(n int) string {
+	return fmt.Sprintf("%x.%x.%d", h.a, h.b, n)
+}
+
 type dctx struct {
 	prefix    []bool
 	pos       int
@@ -112,6 +128,10 @@ type Run struct {
 	ctx   *dctx
 	pc    []Lit
 	pcT   []*Term
+	pcH   []pcHash // pcH[i] hashes pc[:i+1] (order-dependent; paths rebuild pc in the same order)
+	pcP   []int    // pcP[i] = solver prefix id of pc[:i+1]
+	pcSet map[Lit]bool
+	uf    *ufState // variable components of the path condition (for summary memo keys)
 	model Model
 	memo  map[int]uint64
 
@@ -157,8 +177,22 @@ func (r *Run) pushPC(c *Term, positive bool) {
 		r.pushPC(c.A[0], !positive)
 		return
 	}
+	l := r.lit(c, positive)
+	if r.pcSet == nil {
+		r.pcSet = map[Lit]bool{}
+	}
+	if r.pcSet[l] {
+		return // already a conjunct of the path condition
+	}
+	r.pcSet[l] = true
 	r.noteConjunct(c, positive)
-	r.pc = append(r.pc, r.lit(c, positive))
+	var prev pcHash
+	if n := len(r.pc); n > 0 && len(r.pcH) >= n {
+		prev = r.pcH[n-1]
+	}
+	r.pcH = append(r.pcH[:len(r.pc)], prev.add(l))
+	r.pc = append(r.pc, l)
+	r.ufPush(c, l)
 	if positive {
 		r.pcT = append(r.pcT, c)
 	} else {
@@ -186,12 +220,32 @@ func (r *Run) check(extra *Term, positive bool, wantModel bool) (Result, Model) 
 		}
 		r.eng.solver.where = r.eng.posString(r.curPos()) + " " + fn
 	}
-	lits := make([]Lit, len(r.pc), len(r.pc)+1)
-	copy(lits, r.pc)
-	if extra != nil {
-		lits = append(lits, r.lit(extra, positive))
+	var h pcHash
+	if n := len(r.pc); n > 0 {
+		h = r.pcH[n-1]
 	}
-	return r.eng.solver.Check(lits, wantModel)
+	var el Lit
+	if extra != nil {
+		el = r.lit(extra, positive)
+		h = h.add(el)
+	}
+	return r.eng.solver.CheckLits(r.pc, el, wantModel, h.key(len(r.pc)))
+}
+
+// truncatePC drops the conjuncts after the first n.
+func (r *Run) truncatePC(n int) {
+	for _, l := range r.pc[n:] {
+		delete(r.pcSet, l)
+	}
+	r.ufTruncate(n)
+	r.pc = r.pc[:n]
+	r.pcT = r.pcT[:n]
+	if len(r.pcH) > n {
+		r.pcH = r.pcH[:n]
+	}
+	if len(r.pcP) > n {
+		r.pcP = r.pcP[:n]
+	}
 }
 
 // Branch decides a symbolic condition, forking when both sides are feasible.
@@ -204,6 +258,14 @@ func (r *Run) Branch(c *Term) bool {
 	}
 	if r.merging > 0 {
 		panic(mergeAbort{})
+	}
+	if r.pcSet != nil {
+		if r.pcSet[r.lit(c, true)] {
+			return true
+		}
+		if r.pcSet[r.lit(c, false)] {
+			return false
+		}
 	}
 	ctx := r.ctx
 	if ctx.pos < len(ctx.prefix) {
@@ -577,8 +639,7 @@ func (r *Run) summarise(call func() Value, name string, args []Value, env []Valu
 	impure := false
 	restore := func() {
 		r.ctx = saved
-		r.pc = r.pc[:basePC]
-		r.pcT = r.pcT[:basePC]
+		r.truncatePC(basePC)
 		restoreDom()
 		r.setModel(baseModel)
 		r.obs = r.obs[:savedObs]
@@ -589,8 +650,7 @@ func (r *Run) summarise(call func() Value, name string, args []Value, env []Valu
 		pfx := work[len(work)-1]
 		work = work[:len(work)-1]
 		r.ctx = &dctx{prefix: pfx, work: &work}
-		r.pc = r.pc[:basePC]
-		r.pcT = r.pcT[:basePC]
+		r.truncatePC(basePC)
 		restoreDom()
 		r.setModel(baseModel)
 		r.frames = r.frames[:savedFrames]
